@@ -118,6 +118,21 @@ package deneb
 //@   requires spec != nil
 //@   ensures r == min(spec.MAX_PER_EPOCH_ACTIVATION_CHURN_LIMIT, phase0ChurnLimit)
 
+// upgrade_to_deneb: the new fork record is (previous_version = the pre-state's current version, current_version =
+// DENEB_FORK_VERSION, epoch = the epoch of the pre-state's slot). The rest of the upgrade (field carry-over, new fields)
+// assembles tree views through the external view library and is not described; a state comes back on success.
+//@ func AsBeaconStateView(v, err0) (r, err)
+//@   trusted
+//@   ensures err == nil ==> r != nil
+//@ func UpgradeToDeneb(spec, epc, pre) (post, err)
+//@   property C14 C02
+//@   panics off
+//@   opt weakcalls
+//@   opt inline=closures
+//@   assigns anything, ghost(n_fork_view), ghost(last_fork_view)
+//@   ensures err == nil ==> post != nil
+//@   ensures fork_record: err == nil && spec != nil && spec.SLOTS_PER_EPOCH != 0 && pre != nil ==> n_fork_view == old(n_fork_view) + 1 && last_fork_view.PreviousVersion == pst_fork_capella(pre).CurrentVersion && last_fork_view.CurrentVersion == spec.DENEB_FORK_VERSION && last_fork_view.Epoch == pst_slot_capella(pre) / spec.SLOTS_PER_EPOCH
+
 // BEGIN C18 generated (tools/gen_c18.py in /verif)
 // cancelled: a context cancelled before the call makes it fail; surfaced: a cancellation observed by a poll
 // during the call makes it fail; polled: success after a poll means the context was not cancelled at entry.
